@@ -58,5 +58,27 @@ fn main() {
         if samples.len() < 3 && s.len() == 5 { samples.push(src.clone()); }
         if s.chars().count() < max_len { for a in alphabet { stack.push(format!("{s}{a}")); } }
     }
-    println!("C12-BOUNDED ok {{\"bounded\": true, \"alphabet\": \"/ * space é a\", \"max_len\": {max_len}, \"inputs\": {inputs}, \"unterminated\": {unterminated}, \"samples\": {samples:?}}}");
+    // ---- string literals: `"` + every string over {'"', 'a', 'é', '日', ' '} up to the length bound
+    let mut strings = 0u64;
+    let mut stack: Vec<String> = vec![String::new()];
+    let salpha = ["\"", "a", "é", "日", " "];
+    while let Some(s) = stack.pop() {
+        let src = format!("\"{s}");
+        strings += 1;
+        let r = std::panic::catch_unwind(|| {
+            let mut lx = Lexer::new(&src).expect("no invalid code points");
+            lx.next().map(|(tok, span)| (tok.err(), span.offset(), span.len()))
+        });
+        let got = match r { Ok(g) => g, Err(_) => { println!("C12-BOUNDED VIOLATION: the lexer panicked on the string literal source {src:?}"); std::process::exit(1); } };
+        // the literal closes at the first `"` after the opening quote; otherwise it is unterminated
+        let expect = src[1..].find('"').map(|i| i + 2);
+        let ok = match (expect, got) {
+            (Some(end), Some((None, 0, len))) => len == end,
+            (None, Some((Some(Error::UnterminatedString), off, len))) => off + len <= src.len() && src.is_char_boundary(off) && src.is_char_boundary(off + len),
+            _ => false,
+        };
+        if !ok { println!("C12-BOUNDED VIOLATION: string literal source {src:?}: first item {got:?}, expected the literal to end at byte {expect:?} (None = unterminated)"); std::process::exit(1); }
+        if s.chars().count() < max_len.min(6) { for a in salpha { stack.push(format!("{s}{a}")); } }
+    }
+    println!("C12-BOUNDED ok {{\"string_sources\": {strings}, \"bounded\": true, \"alphabet\": \"/ * space é a\", \"max_len\": {max_len}, \"inputs\": {inputs}, \"unterminated\": {unterminated}, \"samples\": {samples:?}}}");
 }
